@@ -67,25 +67,12 @@ Print Assumptions C07_value_namespace_partial.
 
 (* with abbreviations the statement is false of the code: `--mod kb` is ignored by the rounds (allow_abbrev=False)
    but read by the main parser, so `subgroups` reports a key that was not used to build the value *)
-Definition W_TREE : dc :=
-  Dc "Cfg" [("seed", 0%Z)]
-     (SUn "model" (Some "small")
-          (ACons "small" SType (Dc "Sgd" [("lr", 1%Z); ("momentum", 2%Z)] SNil)
-          (ACons "adamish" (SInst [("lrd", 11%Z); ("beta", 22%Z)]) (Dc "Adam" [("lrd", 10%Z); ("beta", 20%Z)] SNil) ANil))
-          SNil).
-Definition W_TB : optab :=
-  [("--seed", ["c"; "seed"]); ("--model", ["c"; "model"]); ("--lr", ["c"; "model"; "lr"]);
-   ("--momentum", ["c"; "model"; "momentum"]); ("--lrd", ["c"; "model"; "lrd"]); ("--beta", ["c"; "model"; "beta"])].
-
 Theorem C07_namespace_refuted :
   exists tb argv root d fuel r v rep,
     declared_dc d = true /\ wf_dc d = true /\ str_nodupb (map fst tb) = true /\ depth_dc d <= fuel /\
     resolve_gen fuel tb argv root d = Ok r /\ final_gen tb argv root r = Ok (v, rep) /\
     rep <> chosen_of (sg_info_dc root r).
-Proof.
-  exists W_TB, [("--mod", "adamish")], ["c"], W_TREE, 1.
-  eexists. eexists. eexists. vm_compute. repeat split; try reflexivity; try lia. discriminate.
-Qed.
+Proof. exact namespace_refuted. Qed.
 Print Assumptions C07_namespace_refuted.
 
 (* ---------- the model meets the specification on every command line without abbreviations ... ---------- *)
@@ -117,23 +104,13 @@ Proof. exact no_crash. Qed.
 Print Assumptions C07_no_crash_partial.
 
 (* the excluded shape does crash: a frozen instance of a class whose subgroup field declares a default key *)
-Definition W_CRASH : dc :=
-  Dc "T" []
-     (SUn "m" (Some "ia")
-          (ACons "ia" (SInst [("x", 7%Z)])
-                 (Dc "A" [("x", 1%Z)] (SUn "inner" (Some "i1") (ACons "i1" SType (Dc "L" [("y", 2%Z)] SNil) ANil) SNil))
-                 ANil)
-          SNil).
 Theorem C07_crash_refuted :
   exists tb argv root d fuel,
     declared_dc d = true /\ wf_dc d = true /\ str_nodupb (map fst tb) = true /\ depth_dc d <= fuel /\
     no_abbrev tb argv root d fuel = true /\
     parse_gen fuel tb argv root d = Err (Raise "AssertionError") /\
     expect_allows (spec d root (intents_of tb argv)) (parse_gen fuel tb argv root d) = false.
-Proof.
-  exists [("--m", ["c"; "m"]); ("--inner", ["c"; "m"; "inner"])], [], ["c"], W_CRASH, 2.
-  vm_compute. repeat split; try reflexivity; lia.
-Qed.
+Proof. exact crash_refuted. Qed.
 Print Assumptions C07_crash_refuted.
 
 (* ---------- C07_foreign_rejected: an option that no registered spelling starts with is refused, for every resolved
@@ -153,13 +130,7 @@ Theorem C07_foreign_exact_refuted :
     declared_dc d = true /\ wf_dc d = true /\ str_nodupb (map fst tb) = true /\ depth_dc d <= fuel /\
     resolve_gen fuel tb argv root d = Ok r /\ In (o, v) argv /\ exact tb o = Some q /\ ~ In q (registered root r) /\
     final_gen tb argv root r = Ok x.
-Proof.
-  exists W_TB, [("--model", "adamish"); ("--lr", "5")], ["c"], W_TREE, 1.
-  eexists. exists "--lr", "5", ["c"; "model"; "lr"]. eexists.
-  vm_compute. repeat split; try reflexivity; try lia.
-  - right. now left.
-  - intros H. repeat (destruct H as [H|H]; [discriminate|]). exact H.
-Qed.
+Proof. exact foreign_exact_refuted. Qed.
 Print Assumptions C07_foreign_exact_refuted.
 
 (* ---------- Union[A, B] fields: sub-command names as keys.  PARTIAL: how argparse cuts the command line at the
